@@ -15,7 +15,9 @@ fn sp(state: i64, depth: usize, value: isize, ub: isize) -> SubProblem<i64> {
 
 /// args: a flat op list  `push s d v u` | `pop` | `clear`  -- replayed against a reference multiset model
 /// keyed by (state, depth) with max-ub-then-value pops.  Returns true iff the real fringe agrees with the model.
-pub fn replay(args: &[&str], nodup: bool) -> bool {
+pub fn replay(args: &[&str], nodup: bool) -> bool { replay_impl(args, nodup, true) }
+pub fn replay_quiet(args: &[&str], nodup: bool) -> bool { replay_impl(args, nodup, false) }
+fn replay_impl(args: &[&str], nodup: bool, verbose: bool) -> bool {
     let rk = IdRanking;
     let mut nd = NoDupFringe::new(MaxUB::new(&rk));
     let mut sf = SimpleFringe::new(MaxUB::new(&rk));
@@ -53,20 +55,20 @@ pub fn replay(args: &[&str], nodup: bool) -> bool {
                     (Some(g), Some(bi)) => {
                         let b = model[bi].clone();
                         if g.ub != b.ub || g.value != b.value {
-                            println!("  violated: popped (state={}, depth={}, value={}, ub={}) but the best held entry is (state={}, depth={}, value={}, ub={})",
-                                     g.state, g.depth, g.value, g.ub, b.state, b.depth, b.value, b.ub);
+                            if verbose { println!("  violated: popped (state={}, depth={}, value={}, ub={}) but the best held entry is (state={}, depth={}, value={}, ub={})",
+                                     g.state, g.depth, g.value, g.ub, b.state, b.depth, b.value, b.ub); }
                             ok = false;
                         }
                         // remove the popped entry from the model (by identity state+depth+value+ub+path)
                         if let Some(k) = model.iter().position(|e| *e.state == *g.state && e.depth == g.depth && e.value == g.value && e.ub == g.ub && e.path == g.path) {
                             model.remove(k);
                         } else {
-                            println!("  violated: popped entry (state={}, depth={}, value={}, ub={}, path={:?}) is not a held sub-problem (lost/invented/mis-coalesced)", g.state, g.depth, g.value, g.ub, g.path);
+                            if verbose { println!("  violated: popped entry (state={}, depth={}, value={}, ub={}, path={:?}) is not a held sub-problem (lost/invented/mis-coalesced)", g.state, g.depth, g.value, g.ub, g.path); }
                             ok = false;
                             model.remove(bi);
                         }
                     }
-                    (g, b) => { println!("  violated: pop returned {:?} but model has {:?}", g.map(|x| *x.state), b); ok = false; }
+                    (g, b) => { if verbose { println!("  violated: pop returned {:?} but model has {:?}", g.map(|x| *x.state), b); } ok = false; }
                 }
             }
             "clear" => { i += 1; if nodup { nd.clear() } else { sf.clear() }; model.clear(); }
@@ -74,11 +76,40 @@ pub fn replay(args: &[&str], nodup: bool) -> bool {
         }
         let len = if nodup { nd.len() } else { sf.len() };
         if len != model.len() {
-            println!("  violated: len() = {} but {} sub-problems are held according to the reference model", len, model.len());
+            if verbose { println!("  violated: len() = {} but {} sub-problems are held according to the reference model", len, model.len()); }
             ok = false;
             break;
         }
     }
-    println!("fringe replay ({}): {}", if nodup { "NoDupFringe" } else { "SimpleFringe" }, if ok { "agrees with the reference model" } else { "DISAGREES" });
+    if verbose { println!("fringe replay ({}): {}", if nodup { "NoDupFringe" } else { "SimpleFringe" }, if ok { "agrees with the reference model" } else { "DISAGREES" }); }
     ok
+}
+
+/// Witness search (used after a contract of unit nodup_fringe / simple_fringe fails): random operation sequences over a small
+/// alphabet, each replayed against the reference model.  args: <seed> <number of sequences> ; prints the first failing sequence.
+pub fn fuzz(args: &[&str], nodup: bool) -> bool {
+    let mut x: u64 = args.first().and_then(|s| s.parse().ok()).unwrap_or(1) * 6364136223846793005 + 1442695040888963407;
+    let n: usize = args.get(1).and_then(|s| s.parse().ok()).unwrap_or(20000);
+    let mut next = move |m: u64| { x = x.wrapping_mul(6364136223846793005).wrapping_add(1442695040888963407); (x >> 33) % m };
+    for it in 0..n {
+        let len = 2 + next(10) as usize;
+        let mut ops: Vec<String> = vec![];
+        for _ in 0..len {
+            match next(10) {
+                0..=5 => { ops.extend(["push".to_string(), next(3).to_string(), next(2).to_string(), next(6).to_string(), next(6).to_string()]); }
+                6..=8 => ops.push("pop".to_string()),
+                _ => ops.push("clear".to_string()),
+            }
+        }
+        for _ in 0..4 { ops.push("pop".to_string()); }
+        let refs: Vec<&str> = ops.iter().map(|s| s.as_str()).collect();
+        // silent run first
+        if !replay_quiet(&refs, nodup) {
+            println!("failing operation sequence found after {} sequences:  {}", it + 1, ops.join(" "));
+            replay(&refs, nodup);
+            return false;
+        }
+    }
+    println!("no failing sequence among {n} random sequences");
+    true
 }
